@@ -815,6 +815,18 @@ func (env *Env) evalCall(e CallE) *SV {
 		need(1)
 		x := arg(0)
 		return ghostBV(8, false, fmt.Sprintf("((_ extract %d %d) %s)", x.sort().Bits()-1, x.sort().Bits()-8, x.term()))
+	case "sha_out":
+		need(0)
+		if vc.lastSha == nil {
+			env.fail("sha_out(): no hash.Sum call was executed")
+		}
+		return &SV{Sort: bvSort(160), Signed: false, C: []string{vc.lastSha.out}}
+	case "hex_in":
+		need(0)
+		if vc.lastHex == "" {
+			env.fail("hex_in(): no hexadecimal rendering of a 20-byte value was executed")
+		}
+		return &SV{Sort: bvSort(160), Signed: false, C: []string{vc.lastHex}}
 	case "rsa_ok":
 		need(0)
 		if vc.lastRSA == nil {
